@@ -465,6 +465,10 @@ def gen_universe(rng: random.Random, saturated: bool = False) -> World:
                   note=rng.choice(["", "pn"]))
     w.db()
     w.db()
+    # a few objects are instances of user-defined subclasses of the library classes (is-a Table, ...)
+    for h, d in w.m.items():
+        if d["kind"] in ("table", "enum", "ref", "group", "sticky", "project") and rng.random() < 0.12:
+            d["subclass"] = True
     return w
 
 
